@@ -18,7 +18,9 @@ from ..drivers import Stepper, run_stream
 PROP = "C15"
 LEVEL = "exploration"
 RULE = ("each case is one target configuration and one seeded history of a "
-        "given kind: 'sequential' (constructions, complete / partial / "
+        "given kind: 'neighbours' (every configuration that differs from "
+        "the target in exactly one parameter is built and iterated first), "
+        "'sequential' (constructions, complete / partial / "
         "abandoned iterations of parameter-neighbours, failed "
         "constructions, observer reads, direct helper calls, then the "
         "target with observer reads between actions), 'roundrobin' (live "
@@ -32,7 +34,8 @@ RULE = ("each case is one target configuration and one seeded history of a "
         "memo dictionaries are audited against the oracles at the end of "
         "every case; non-trivial = target stream with >= 1 load; distinct = "
         "distinct (target, history kind, history seed)")
-REQUIRED = ["C15.stream_equals_fresh_interpreter", "C15.history.sequential",
+REQUIRED = ["C15.stream_equals_fresh_interpreter", "C15.history.neighbours",
+            "C15.history.sequential",
             "C15.history.roundrobin", "C15.history.threads",
             "C15.history.abort", "C15.failpoints_fired",
             "C15.yields_injected", "C15.observer_reads"]
@@ -46,10 +49,13 @@ def targets(tier, seed):
     rng = random.Random(seed * 160481183 + 15)
     th = tier == "thorough"
     T = []
-    k = 20 if th else 3
+    k = 20 if th else 5
     for _ in range(k):
         T.append({"cls": "Multistage", "n": rng.randint(4, 70),
                   "ram": rng.randint(0, 3), "disk": rng.randint(1, 4),
+                  "traj": rng.choice(["maximum", "revolve"])})
+        T.append({"cls": "Multistage", "n": rng.randint(4, 24),
+                  "ram": rng.randint(1, 3), "disk": rng.randint(1, 3),
                   "traj": rng.choice(["maximum", "revolve"])})
         T.append({"cls": "Mixed", "n": rng.randint(4, 60),
                   "s": rng.randint(1, 5),
@@ -78,9 +84,43 @@ def targets(tier, seed):
     return T
 
 
+def bulk_targets(tier, seed):
+    """Many small targets for the cheap 'neighbours' history."""
+    rng = random.Random(seed * 7368787 + 151)
+    th = tier == "thorough"
+    T = []
+    for n in range(3, 15):
+        for ram in (1, 2, 3):
+            for disk in (1, 2, 3):
+                for tr in ("maximum", "revolve"):
+                    T.append({"cls": "Multistage", "n": n, "ram": ram,
+                              "disk": disk, "traj": tr})
+    for n in range(3, 26, 2):
+        for ram in (1, 2, 3):
+            for v in ([1, 1, 2, 2], [3, 1, 6, 6], [1, 3, 2, 2], [4, 1, 1, 1]):
+                for c in ("Revolve", "DiskRevolve", "PeriodicDiskRevolve"):
+                    T.append({"cls": c, "n": n, "ram": ram, "costs": v})
+                T.append({"cls": "HRevolve", "n": n, "ram": ram,
+                          "disk": rng.randint(0, 3), "costs": v})
+    for n in range(3, 30):
+        for s_ in (1, 2, 3, 4):
+            T.append({"cls": "Mixed", "n": n, "s": s_,
+                      "storage": rng.choice(["RAM", "DISK"])})
+        T.append({"cls": "TwoLevel", "n": n, "period": rng.randint(1, 7),
+                  "bs": rng.randint(0, 3),
+                  "storage": rng.choice(["RAM", "DISK"]),
+                  "traj": rng.choice(["maximum", "revolve"])})
+    rng.shuffle(T)
+    return T[:(len(T) if th else 260)]
+
+
 def cases(tier, seed):
     th = tier == "thorough"
     out = []
+    for ti, t in enumerate(bulk_targets(tier, seed)):
+        out.append({"target": t, "kind": "neighbours",
+                    "hseed": (seed * 1013 + ti) % (2 ** 31), "length": 0,
+                    "threads": 0})
     reps = 4 if th else 1
     for ti, t in enumerate(targets(tier, seed)):
         for kind in ("sequential", "roundrobin", "threads", "abort"):
@@ -118,7 +158,10 @@ def fresh_stream(cfg, ctx):
 
 # ---------------------------------------------------------------- neighbours
 def neighbours(cfg, rng):
-    out = []
+    from ..workloads import single_param_neighbours
+    out = single_param_neighbours(cfg, rng)
+    rng.shuffle(out)
+    out = out[:10]
     for _ in range(6):
         c = dict(cfg)
         for k in list(c):
@@ -248,6 +291,11 @@ def audit_caches():
 def hist_sequential(target, rng, length, ev):
     live = []
     nb = neighbours(target, rng)
+    for c in nb[:10]:
+        try:
+            Stepper(c).run()
+        except Exception:
+            ev["history_op_errors"] = ev.get("history_op_errors", 0) + 1
     for _ in range(length):
         op = rng.randrange(7)
         try:
@@ -291,6 +339,22 @@ def hist_sequential(target, rng, length, ev):
     # and a second object with equal parameters, no reads
     streams.append(_strip(Stepper(dict(target)).run()))
     return streams, live
+
+
+def hist_neighbours(target, rng, ev):
+    """All single-parameter neighbours are constructed and iterated to the
+    end, in seeded order, then the target (twice)."""
+    from ..workloads import single_param_neighbours
+    nb = single_param_neighbours(target, rng)
+    rng.shuffle(nb)
+    for c in nb:
+        try:
+            Stepper(c).run()
+            ev["neighbour_streams"] = ev.get("neighbour_streams", 0) + 1
+        except Exception:
+            ev["history_op_errors"] = ev.get("history_op_errors", 0) + 1
+    return [_strip(Stepper(dict(target)).run()),
+            _strip(Stepper(dict(target)).run())], None
 
 
 def _strip(stream):
@@ -424,7 +488,9 @@ def run_case(case, ctx):
 
     base = fresh_stream(target, ctx)
     base = _strip(base)
-    if kind == "sequential":
+    if kind == "neighbours":
+        streams, keep = hist_neighbours(target, rng, ev)
+    elif kind == "sequential":
         streams, keep = hist_sequential(target, rng, case["length"], ev)
     elif kind == "roundrobin":
         streams, keep = hist_roundrobin(target, rng, case["length"], ev)
